@@ -11,6 +11,7 @@ import (
 	"go/token"
 	"go/types"
 	"math/big"
+	"os"
 	"sort"
 	"strings"
 
@@ -436,6 +437,14 @@ func (fr *Frame) block(b *ssa.BasicBlock, entryGuard string, entryHeap Heap, pos
 			if f := fr.typeFacts(fr.vals[ph].T, ph.Type(), h); f != "true" {
 				fr.assume(f, "type facts of loop variable")
 			}
+			if os.Getenv("GOVC_DEBUG") != "" {
+				fmt.Fprintf(os.Stderr, "loop header %d %q phi %s %v\n", b.Index, b.Comment, ph.Name(), ph.Edges)
+			}
+			if b.Comment == "rangeindex.loop" && fr.isRangeIndexPhi(ph, b) {
+				// the hidden index of a range-over-slice/array/string loop starts at -1 and is only
+				// ever incremented by one below the (fixed) length: it never goes below -1
+				fr.assume(fr.g.ile(fr.g.ilit(-1), fr.vals[ph].T), "range index >= -1")
+			}
 		}
 		for _, c := range invs {
 			f := fr.specBool(c.Expr, h, b, c)
@@ -659,6 +668,29 @@ func (fr *Frame) havocLoop(li *loopInfo, h Heap) Heap {
 				}
 			case *ssa.MapUpdate:
 				for _, n := range fr.mapHeapNames(x.Map.Type()) {
+					add(n, "", true)
+				}
+			case *ssa.Select:
+				for _, st := range x.States {
+					el := st.Chan.Type().Underlying().(*types.Chan).Elem()
+					if st.Dir == types.SendOnly {
+						n, _ := g.sndName(el)
+						add(n, "", true)
+						cn, _ := g.sndCountName()
+						add(cn, "", true)
+					} else {
+						n, _ := g.rcvName(el)
+						add(n, "", true)
+					}
+				}
+			case *ssa.Send:
+				n, _ := g.sndName(x.Chan.Type().Underlying().(*types.Chan).Elem())
+				add(n, "", true)
+				cn, _ := g.sndCountName()
+				add(cn, "", true)
+			case *ssa.UnOp:
+				if x.Op == token.ARROW {
+					n, _ := g.rcvName(x.X.Type().Underlying().(*types.Chan).Elem())
 					add(n, "", true)
 				}
 			case *ssa.Next:
@@ -886,4 +918,31 @@ func (fr *Frame) mayRecover() bool {
 		}
 	}
 	return false
+}
+
+// isRangeIndexPhi recognises go/ssa's lowering of the hidden range index: phi [entry: -1, back: phi+1].
+func (fr *Frame) isRangeIndexPhi(ph *ssa.Phi, b *ssa.BasicBlock) bool {
+	okInit, okInc := false, false
+	if b, ok := ph.Type().Underlying().(*types.Basic); !ok || b.Info()&types.IsInteger == 0 {
+		return false
+	}
+	for _, e := range ph.Edges {
+		good := false
+		switch v := e.(type) {
+		case *ssa.Const:
+			if v.Value != nil && v.Value.Kind() == constant.Int && v.Int64() == -1 {
+				okInit, good = true, true
+			}
+		case *ssa.BinOp:
+			if v.Op == token.ADD && v.X == ssa.Value(ph) {
+				if c, ok := v.Y.(*ssa.Const); ok && c.Value != nil && c.Value.Kind() == constant.Int && c.Int64() == 1 {
+					okInc, good = true, true
+				}
+			}
+		}
+		if !good {
+			return false
+		}
+	}
+	return okInit && okInc
 }
